@@ -2,6 +2,8 @@ package gen
 
 import (
 	"math"
+
+	"github.com/ipfs/go-cid"
 	"math/rand/v2"
 	"sort"
 
@@ -16,7 +18,7 @@ var strPool = []string{"", "a", "b", "ab", "abc", "aaab", "aab", "abab", "ababac
 
 var intPool = []int64{0, 1, -1, 2, 3, 5, 7, 10, 42, 100, 255, 256, -100, 1000, 65535, 1 << 31, -(1 << 31), 1<<32 + 1, MaxSafe, -MaxSafe, MaxSafe - 1, -MaxSafe + 1}
 
-var floatPool = []float64{0, 1, -1, 0.5, -0.5, 1.5, 2.5, 3.14, 1e10, -1e10, 1e-10, 1e100, -1e100, math.MaxFloat64, math.SmallestNonzeroFloat64, 9007199254740993.0}
+var floatPool = []float64{0, 1, -1, 0.5, -0.5, 1.5, 2.5, 3.14, 1e10, -1e10, 1e-10, 1e100, -1e100, math.MaxFloat64, -math.MaxFloat64, 1e308, -1e308, 1.5e308, -1.5e308, math.SmallestNonzeroFloat64, -math.SmallestNonzeroFloat64, 9007199254740993.0}
 
 // ValOpts tunes the value generator.
 type ValOpts struct {
@@ -155,6 +157,9 @@ func Value(r *rand.Rand, depth int, o ValOpts) ref.V {
 		case 5:
 			return ref.Str(String(r, o))
 		case 6:
+			if o.Links && r.IntN(2) == 0 {
+				return ref.Link(Pick(r, LinkPool()))
+			}
 			return ref.Bytes(Bytes(r, r.IntN(6)))
 		case 7:
 			n := r.IntN(w + 1)
@@ -217,4 +222,17 @@ func NormMapKeys(m []ref.KV) []ref.KV {
 		out = append(out, e)
 	}
 	return out
+}
+
+var linkPool []cid.Cid
+
+// LinkPool: a few CIDs, some of which share their multihash and differ only in codec or
+// CID version (different links, although they address the same bytes).
+func LinkPool() []cid.Cid {
+	if linkPool == nil {
+		a := ref.CID([]byte("block a"))
+		b := ref.CID([]byte("block b"))
+		linkPool = []cid.Cid{a, b, cid.NewCidV1(0x55, a.Hash()), cid.NewCidV0(a.Hash()), cid.NewCidV1(0x0129, b.Hash())}
+	}
+	return linkPool
 }
